@@ -37,6 +37,8 @@ def canon(o, seen=None, depth=0):
     seen[oid] = len(seen)
     if depth > 12:
         return ('deep', type(o).__name__)
+    if isinstance(o, type):
+        return ('class', o.__module__, o.__qualname__)
     if hasattr(o, '__canon__'):
         return o.__canon__()
     if isinstance(o, (list, tuple)):
